@@ -41,6 +41,8 @@ AfterAddBit(s, bs)   == s \o bs
 AfterAddBits(s,v,k)  == s \o LowBits(v, k)
 AfterAddByte(s, b)   == s \o LowBits(b, 8)
 AfterSetBit(s, i, v) == [s EXCEPT ![i + 1] = v]
+\* n consecutive AddByte(b) steps, recorded as one event by the harness for long fills (composition of n AddByte actions)
+AfterAddByteN(s, b, n) == s \o [i \in 1..(8 * n) |-> LowBits(b, 8)[((i - 1) % 8) + 1]]
 
 Init == bits = <<>> /\ last = Call("New", <<0>>, <<>>)
 
